@@ -1238,8 +1238,14 @@ _lookup(LB* self,
         return NULL;
 
     cache = _getcache(self, provided, name);
-    if (cache == NULL)
+    if (cache == NULL) {
+        Py_DECREF(required);
         return NULL;
+    }
+    /* The uncached lookup below runs arbitrary Python code, which may
+       clear our caches (e.g., by registering something): the borrowed
+       reference would then point to a freed dictionary. Own it. */
+    Py_INCREF(cache);
 
     if (PyTuple_GET_SIZE(required) == 1)
         key = PyTuple_GET_ITEM(required, 0);
@@ -1253,10 +1259,12 @@ _lookup(LB* self,
         result = PyObject_CallMethodObjArgs(
           OBJECT(self), str_uncached_lookup, required, provided, name, NULL);
         if (result == NULL) {
+            Py_DECREF(cache);
             Py_DECREF(required);
             return NULL;
         }
         status = PyDict_SetItem(cache, key, result);
+        Py_DECREF(cache);
         Py_DECREF(required);
         if (status < 0) {
             Py_DECREF(result);
@@ -1264,6 +1272,7 @@ _lookup(LB* self,
         }
     } else {
         Py_INCREF(result);
+        Py_DECREF(cache);
         Py_DECREF(required);
     }
 
@@ -1499,11 +1508,21 @@ _lookupAll(LB* self, PyObject* required, PyObject* provided)
     if (required == NULL)
         return NULL;
 
-    ASSURE_DICT(self->_mcache);
+    if (self->_mcache == NULL) {
+        self->_mcache = PyDict_New();
+        if (self->_mcache == NULL) {
+            Py_DECREF(required);
+            return NULL;
+        }
+    }
 
     cache = _subcache(self->_mcache, provided);
-    if (cache == NULL)
+    if (cache == NULL) {
+        Py_DECREF(required);
         return NULL;
+    }
+    /* Own the cache across the call below; see note in _lookup. */
+    Py_INCREF(cache);
 
     result = PyDict_GetItem(cache, required);
     if (result == NULL) {
@@ -1512,10 +1531,12 @@ _lookupAll(LB* self, PyObject* required, PyObject* provided)
         result = PyObject_CallMethodObjArgs(
           OBJECT(self), str_uncached_lookupAll, required, provided, NULL);
         if (result == NULL) {
+            Py_DECREF(cache);
             Py_DECREF(required);
             return NULL;
         }
         status = PyDict_SetItem(cache, required, result);
+        Py_DECREF(cache);
         Py_DECREF(required);
         if (status < 0) {
             Py_DECREF(result);
@@ -1523,6 +1544,7 @@ _lookupAll(LB* self, PyObject* required, PyObject* provided)
         }
     } else {
         Py_INCREF(result);
+        Py_DECREF(cache);
         Py_DECREF(required);
     }
 
@@ -1567,11 +1589,21 @@ _subscriptions(LB* self, PyObject* required, PyObject* provided)
     if (required == NULL)
         return NULL;
 
-    ASSURE_DICT(self->_scache);
+    if (self->_scache == NULL) {
+        self->_scache = PyDict_New();
+        if (self->_scache == NULL) {
+            Py_DECREF(required);
+            return NULL;
+        }
+    }
 
     cache = _subcache(self->_scache, provided);
-    if (cache == NULL)
+    if (cache == NULL) {
+        Py_DECREF(required);
         return NULL;
+    }
+    /* Own the cache across the call below; see note in _lookup. */
+    Py_INCREF(cache);
 
     result = PyDict_GetItem(cache, required);
     if (result == NULL) {
@@ -1580,10 +1612,12 @@ _subscriptions(LB* self, PyObject* required, PyObject* provided)
         result = PyObject_CallMethodObjArgs(
           OBJECT(self), str_uncached_subscriptions, required, provided, NULL);
         if (result == NULL) {
+            Py_DECREF(cache);
             Py_DECREF(required);
             return NULL;
         }
         status = PyDict_SetItem(cache, required, result);
+        Py_DECREF(cache);
         Py_DECREF(required);
         if (status < 0) {
             Py_DECREF(result);
@@ -1591,6 +1625,7 @@ _subscriptions(LB* self, PyObject* required, PyObject* provided)
         }
     } else {
         Py_INCREF(result);
+        Py_DECREF(cache);
         Py_DECREF(required);
     }
 
